@@ -177,13 +177,16 @@ bool cache::save(std::ostream &out) const
   out << seal_ << ' ' << '\n';
 
   std::size_t num(0);
+  // A slot holding an empty fitness is skipped: `find` returns an empty fitness
+  // for a missing entry too and `fitness_t::load` cannot read an empty line
+  // (it would consume the following key).
   for (const auto &s : table_)
-    if (s.seal == seal_ && !s.hash.empty())
+    if (s.seal == seal_ && !s.hash.empty() && s.fitness.size())
       ++num;
   out << num << '\n';
 
   for (const auto &s : table_)
-    if (s.seal == seal_ && !s.hash.empty())
+    if (s.seal == seal_ && !s.hash.empty() && s.fitness.size())
     {
       s.hash.save(out);
       s.fitness.save(out);
